@@ -113,7 +113,9 @@ def public_methods(kind):
 def header_text(node):
     """Normalised source text of a loop header: the stable handle loop invariants attach to."""
     if isinstance(node, ast.For):
-        return "for %s in %s" % (ast.unparse(node.target), ast.unparse(node.iter))
+        t = node.target
+        tt = ", ".join(ast.unparse(e) for e in t.elts) if isinstance(t, ast.Tuple) else ast.unparse(t)
+        return "for %s in %s" % (tt, ast.unparse(node.iter))
     if isinstance(node, ast.While):
         return "while %s" % ast.unparse(node.test)
     raise TypeError(node)
